@@ -1,0 +1,48 @@
+//go:build verif
+// +build verif
+
+package wasp
+
+// Verification hooks (build tag "verif"). Nothing here changes behaviour: the callbacks
+// are nil unless a test harness sets them, and the constructors only export what the
+// package already has.
+
+import "sync/atomic"
+
+// VerifMIDPool is the packet identifier allocator interface.
+type VerifMIDPool interface {
+	Get() int32
+	Put(int32)
+}
+
+// VerifNewMIDPool exposes the packet identifier allocator used by the writer.
+func VerifNewMIDPool(min, max int32) VerifMIDPool { return newMIDPool(min, max) }
+
+// VerifWriterMIDPool returns the identifier allocator of a writer built by NewWriter.
+func VerifWriterMIDPool(w Writer) VerifMIDPool {
+	if v, ok := w.(*writer); ok {
+		return v.midPool
+	}
+	return nil
+}
+
+var (
+	verifPublishesQueued    int64
+	verifPublishesProcessed int64
+	// VerifOnSessionEnded is called when a connection's serve loop, including teardown, is over.
+	VerifOnSessionEnded atomic.Value // func(sessionID string)
+)
+
+// VerifPublishCounters returns how many publishes were handed to the publish workers and
+// how many of them have been completely processed (distribution and ack callback done).
+func VerifPublishCounters() (queued, processed int64) {
+	return atomic.LoadInt64(&verifPublishesQueued), atomic.LoadInt64(&verifPublishesProcessed)
+}
+
+func verifPublishQueued()    { atomic.AddInt64(&verifPublishesQueued, 1) }
+func verifPublishProcessed() { atomic.AddInt64(&verifPublishesProcessed, 1) }
+func verifSessionEnded(id string) {
+	if f, ok := VerifOnSessionEnded.Load().(func(string)); ok && f != nil {
+		f(id)
+	}
+}
